@@ -736,6 +736,66 @@ func c09Provenance(c *Ctx, r *RuleResult, m *walkerModel, written map[annot][]fi
 	check(annot{"Value", "Definition"}, "walkArgument", func(s fieldStoreSite) bool {
 		return lookupBy(s.store.Val, "Types", typeNameOf("ArgumentDefinition", "Type"))
 	}, "Schema.Types[argDef.Type.Name()]")
+	// the argument definition handed to walkArgument: nil, or <the current definition>.Arguments.ForName(arg.Name)
+	// looked up for this very argument — never a value carried over from an earlier argument or directive
+	if wa := m.byName["walkArgument"]; wa != nil {
+		for _, ci := range callsTo(m.fns, wa) {
+			fn := ci.Parent()
+			headers, bodies := loopsOf(fn)
+			isHdr := map[*ssa.BasicBlock]bool{}
+			for _, h := range headers {
+				if bodies[h][ci.Block()] {
+					isHdr[h] = true
+				}
+			}
+			bad := ""
+			seen := map[ssa.Value]bool{}
+			var walk func(v ssa.Value, d int)
+			walk = func(v ssa.Value, d int) {
+				if seen[v] || d > 6 || bad != "" {
+					return
+				}
+				seen[v] = true
+				v = unspill(v)
+				switch x := v.(type) {
+				case *ssa.Const:
+					if x.Value != nil {
+						bad = "a constant"
+					}
+				case *ssa.Phi:
+					if isHdr[x.Block()] {
+						bad = "a variable that keeps its value from one argument (or directive) to the next"
+						return
+					}
+					for _, e := range x.Edges {
+						walk(e, d+1)
+					}
+				case *ssa.Call:
+					g := x.Call.StaticCallee()
+					if g == nil || g.Name() != "ForName" || len(x.Call.Args) != 2 {
+						bad = "the result of " + calleeName(x)
+						return
+					}
+					if !loadOfField(x.Call.Args[0], "FieldDefinition", "Arguments") && !loadOfField(x.Call.Args[0], "DirectiveDefinition", "Arguments") {
+						bad = "a search in something other than the definition's argument list"
+						return
+					}
+					if !loadOfField(x.Call.Args[1], "Argument", "Name") {
+						bad = "a search by something other than the argument's own name"
+					}
+				default:
+					bad = "a value of unknown origin"
+				}
+			}
+			walk(ci.Common().Args[1], 0)
+			site := "argument definition passed to walkArgument in " + p.FuncName(fn)
+			if bad != "" {
+				r.Fail(ci.Pos(), p.FuncName(fn), "argument definition passed to walkArgument", "the definition against which the argument's value is linked is "+bad+", not the definition's own argument of that name looked up for this argument: values get the expected type of another argument")
+			} else {
+				r.OK(site, "nil or definition.Arguments.ForName(arg.Name), looked up per argument")
+			}
+		}
+	}
 	// walkOperation defaults
 	check(annot{"Value", "ExpectedType"}, "walkOperation", func(s fieldStoreSite) bool {
 		return loadOfField(s.store.Val, "VariableDefinition", "Type")
@@ -1016,6 +1076,72 @@ func walkCoverage(c *Ctx, r *RuleResult, m *walkerModel) {
 	}
 	if !okBody {
 		r.Fail(fn.Pos(), p.FuncName(fn), "fragment body not walked", "the selection set of a spread fragment is never walked from the spread")
+	}
+	// the visited set behind fragment spreads lives for one operation: every iteration of walk()'s loop over the
+	// operations gives it a fresh map before walkOperation is called — otherwise a fragment walked for an earlier
+	// operation is skipped for a later one, and what the rules learn from it (variables used, fields selected) is lost
+	if hostFS, walkFn, wop := m.host("walkSelection", "fragmentSpread"), m.byName["walk"], m.byName["walkOperation"]; hostFS != nil && walkFn != nil && wop != nil {
+		var setField string
+		allInstrs(hostFS, func(in ssa.Instruction) {
+			if mu, ok := in.(*ssa.MapUpdate); ok {
+				if _, f, ok := fieldLoadOf(mu.Map); ok {
+					setField = f
+				}
+			}
+		})
+		if setField == "" {
+			r.AnchorLost("the visited set of fragment spreads (a map field of Walker updated where spreads are walked)")
+		} else {
+			for _, ci := range callsTo([]*ssa.Function{walkFn}, wop) {
+				cb := ci.Block()
+				headers, bodies := loopsOf(walkFn)
+				var inner *ssa.BasicBlock
+				for _, h := range headers {
+					if bodies[h][cb] && h != cb && (inner == nil || len(bodies[h]) < len(bodies[inner])) {
+						inner = h
+					}
+				}
+				resets := map[*ssa.BasicBlock]bool{}
+				allInstrs(walkFn, func(in ssa.Instruction) {
+					st, ok := in.(*ssa.Store)
+					if !ok {
+						return
+					}
+					fa, ok := st.Addr.(*ssa.FieldAddr)
+					if !ok {
+						return
+					}
+					if _, f, _, _ := fieldOf(fa); f != setField {
+						return
+					}
+					if _, isMake := stripChange(st.Val).(*ssa.MakeMap); isMake {
+						// in the same block the reset must come before the call
+						if st.Block() != cb || dominatesInstr(st, ci) {
+							resets[st.Block()] = true
+						}
+					}
+				})
+				skippable := inner == nil || len(resets) == 0
+				if inner != nil && !resets[cb] {
+					for _, sb := range inner.Succs {
+						if !bodies[inner][sb] || sb == inner {
+							continue
+						}
+						if resets[sb] {
+							continue
+						}
+						if reachAvoiding(sb, func(b *ssa.BasicBlock) bool { return resets[b] }, nil)[cb] || sb == cb {
+							skippable = true
+						}
+					}
+				}
+				if skippable {
+					r.Fail(ci.Pos(), p.FuncName(walkFn), "walkOperation without a fresh "+setField, "an operation can be walked with the visited set of the previous one: fragments already walked are skipped, so rules that depend on walking them under this operation (variables it defines and uses, fields it selects) miss what they contain")
+				} else {
+					r.OK("Walker."+setField+" is renewed for every operation before walkOperation", "")
+				}
+			}
+		}
 	}
 	for _, is := range m.hostIssues {
 		r.Fail(token.NoPos, "validator.(*Walker)", "case handed to a helper can be bypassed", is)
